@@ -356,7 +356,7 @@ func (c *Chain) EndBlock() EndResult {
 type KV struct{ K, V []byte }
 
 var StoreNames = []string{"acc", "bank", "params", "upgrade", "recovery", "customslashing", "customstaking", "customgov", "spending",
-	"distributor", "basket", "ubi", "tokens", "feeprocessing", "evidence", "custody", "multistaking", "collectives", "layer2", "consensus", "ethereum"}
+	"distributor", "basket", "ubi", "tokens", "feeprocessing", "customevidence", "custody", "multistaking", "collectives", "layer2", "consensus", "ethereum"}
 
 // DumpStores returns the raw key/value content of every mounted KV store that exists.
 func (c *Chain) DumpStores(ctx sdk.Context) map[string][]KV {
